@@ -327,3 +327,27 @@ check('C14', 'E1', 'model_checking',
       'handlers inline (async_handlers off); namespace-helper parity is '
       'carried by C17; admin classes are outside the property.',
       'DESIGN.md 6/C14')
+
+check('C18', 'E4+E1', 'model_checking',
+      'exhaustive credential/payload enumeration for the gate and the '
+      'read-only mode; lockstep explicit-state BFS plain vs instrumented '
+      'server for transparency',
+      'Gate: 5 auth configurations (dict, list, sync predicate, async '
+      'predicate, disabled) x development/production x read_only x 34 '
+      'payload variants (absent, empty, exact, permuted, every strict '
+      'subset, supersets, every value replaced by None/0/True/[v]/'
+      '{"$ne":""}/v+" "/upper, wrapped in a list, string, number) on both '
+      'servers: CONNECT and admin-namespace membership iff the '
+      'configuration admits the payload. Read-only: an authenticated admin '
+      'sends emit/join/leave/_disconnect with every room filter; '
+      'application clients must see nothing and keep rooms and '
+      'connections. Transparency: the C14 server-twin alphabet and probe '
+      'battery, plus one stats-reporting interval at every state, run in '
+      'lockstep on a plain and an instrumented server (dev/prod x admin '
+      'connected or not x Server/AsyncServer) to depth 3 (5); application '
+      'frames, handler log, callbacks, rooms and pending state must be '
+      'identical.',
+      'Python == defines credential equality; engine.io Socket class '
+      'patches are restored per world; admin traffic itself is not '
+      'compared; the stats task is stepped explicitly.',
+      'DESIGN.md 6/C18')
